@@ -31,7 +31,7 @@ fn strategy(outer_absent: bool) -> impl Strategy<Value = Case> {
 		max_classes: 7,
 		p_nested: 55,
 		outer_absent,
-		..GenCfg::default()
+		backslash_docs: true, ..GenCfg::default()
 	};
 	(mapset(cfg), order_seed(), order_seed(), any::<u8>()).prop_map(|(mut m, order1, order2, tweak)| {
 		// tokens that are special only in a particular position: `ACC:` is a modifier prefix, a target name that merely
